@@ -329,6 +329,13 @@ class SimMachine(object):
         for f in fates:
             if f == "lost":
                 continue
+            if isinstance(f, tuple) and f[0] == "busy_late":
+                # a second copy of a retryable answer, delivered f[1] later
+                pkt = (b"\x00\x00" +
+                       bytes([0x07, tag, spc, dpc, sy, sx, dy, dx]) +
+                       struct.pack("<2H", 0x8d, seq))
+                out.append((f[1], pkt, dict(kind="busy_late", seq=seq)))
+                continue
             if f == "busy":
                 # the command never reaches its chip: the Ethernet chip
                 # answers with a retryable return code (RC_P2P_BUSY)
